@@ -292,11 +292,11 @@ def c04_safe_ops(ctx, seqrun, stats, divs):
 CHECKS['C04'].extra = c04_safe_ops
 CHECKS['C18'].extra = c18_extra
 # C05 ("neither over- nor under-reports under concurrency"): a thread that only WAITS must not change what the other stages are offered
-CHECKS['C05'].extra = lambda ctx, seqrun, stats, divs: (run_waitprobe(ctx, stats), c18_splitprobe(ctx, seqrun, stats, divs))
+CHECKS['C05'].extra = lambda ctx, seqrun, stats, divs: (run_waitprobe(ctx, stats), c18_splitprobe(ctx, seqrun, stats, divs), c18_noalloc(ctx, seqrun, stats, divs))
 # C01 / C04: the supplied contents of EVERY cell and the state right after every kind of split (stack buffers split again by reference
 # and by value) are part of what the consumer may see / of the order of the stages
-CHECKS['C01'].extra = c18_splitprobe
-CHECKS['C04'].extra = lambda ctx, seqrun, stats, divs: (c04_safe_ops(ctx, seqrun, stats, divs), c18_splitprobe(ctx, seqrun, stats, divs))
+CHECKS['C01'].extra = lambda ctx, seqrun, stats, divs: (c18_splitprobe(ctx, seqrun, stats, divs), run_cellprobe(ctx, stats))
+CHECKS['C04'].extra = lambda ctx, seqrun, stats, divs: (c04_safe_ops(ctx, seqrun, stats, divs), c18_splitprobe(ctx, seqrun, stats, divs), c18_noalloc(ctx, seqrun, stats, divs))
 for pid in ('C01', 'C04', 'C05', 'C06', 'C11', 'C12'):
     CHECKS[pid].propfiles = [f'Props/{pid}.v', 'Props/KTie.v']    # K-tie: kernels translated from the source on every run
 for pid in ('C01', 'C05', 'C06'):
@@ -500,7 +500,11 @@ def c09_zst(ctx, seqrun, stats, divs):
     ctx.violation('zero-sized item type with a destructor (new_zeroed + *_init stores + pop_move): ' + what.split(' : ')[-1][:300],
                   f'## replay: .build/cargo/debug/zstprobe {ctx.seed} {n}\n## history: {what}\n', no_input=(mm is None))
 
-CHECKS['C08'] = LedgerCheck('C08', is_ledger, LEDGER_TEXT + ' The cell primitives themselves: C-tie (unsafe_sync_cell.rs translated on every run and proved for every byte representation without all-zero live values, Props/CTie.v) and cellprobe (public API of UnsafeSyncCell on single cells, item sizes 1..24 bytes).', extra=lambda ctx, seqrun, stats, divs: run_cellprobe(ctx, stats))
+def c08_extra(ctx, seqrun, stats, divs):
+    # cell primitives, zero-sized items with a destructor, and the release of a stack buffer boxed by a by-value async split (every item once)
+    c09_zst(ctx, seqrun, stats, divs)
+    if not ctx.violations: c18_splitprobe(ctx, seqrun, stats, divs)
+CHECKS['C08'] = LedgerCheck('C08', is_ledger, LEDGER_TEXT + ' The cell primitives themselves: C-tie (unsafe_sync_cell.rs translated on every run and proved for every byte representation without all-zero live values, Props/CTie.v) and cellprobe (public API of UnsafeSyncCell on single cells, item sizes 1..24 bytes); zero-sized items (zstprobe); boxed stack buffers (splitprobe).', extra=c08_extra)
 CHECKS['C09'] = LedgerCheck('C09', is_ledger, LEDGER_TEXT + ' Zero-sized item types (no bytes: outside the Model): exact drop ledger on rule-following histories (zstprobe). The cell primitives themselves: C-tie (Props/CTie.v) and cellprobe.', extra=c09_zst)
 for pid in ('C08', 'C09'):
     # D-tie: the ledger events of every store / take / clone in the translated source = the Model's; C-tie: the cell primitives they are built from
@@ -549,6 +553,7 @@ class AsyncCheck(SeqCheck):
             # futures of iterators created by EVERY async split, the by-value splits of a stack buffer that was used before included
             # (fresh async iterators against the indices of the previous session would resolve with items nobody produced)
             c18_splitprobe(ctx, runner, stats, divs)
+            c18_noalloc(ctx, runner, stats, divs)        # the twins of the async splits compiled without `alloc`
         self.decide(ctx, divs, not ok, log)
         cov = {'evaluations': stats.steps, 'distinct_nontrivial': len(stats.distinct),
                'rule': 'one evaluation = one step of an async history (future created and polled once, kept future polled again / dropped, direct method, task switch) executed on the '
@@ -784,7 +789,7 @@ class ConcCheck(SeqCheck):
                 ctx.notes['send_probe_rows_for_C07'] = len(re.findall(r'=> send=', out))
             return run_drop_suite(self, ctx, stats)
         run_script_suite(self, ctx, stats)
-        if ctx.prop == 'C10': run_waitprobe(ctx, stats)
+        if ctx.prop in ('C10', 'C02', 'C03'): run_waitprobe(ctx, stats)     # a thread that only waits publishes nothing (nothing unreleased becomes visible)
         # C03: an emptiness test that looks beyond its own cell reads slots another stage holds
         if ctx.prop == 'C03': run_cellprobe(ctx, stats)
         self.send_bad = []
